@@ -204,57 +204,85 @@ def Out.resultTree (o : Out S) : Node := match o.repl with | some r => r | none 
 
 /-! ## The textual order (specification side) -/
 
-abbrev Exp := Bool → Bool → List (Option Nat × Bool × Bool)
+/-- `self it ig`: the node itself (unless it is a mere container) with its flags, then its children -/
+abbrev Exp := Bool → Bool → Bool → List (Option Nat × Bool × Bool)
 
-/-- children in print-template order: for every printed slot of a required kind, its occupants in list
-order, flagged by the slot kind -/
+/-- slots whose occupants matter: required ones are visited, containers are looked through -/
+def Kind.relevant (k : Kind) : Bool := k.required || k == .container
+
+/-- children in print-template order: for every printed slot of a required kind its occupants in list
+order, flagged by the slot kind; for a printed container slot the children of its occupants -/
 def combineP (r : ClassRow) (fs : List (Nat × Exp)) : List (Option Nat × Bool × Bool) :=
-  (r.print.filter (fun p => (r.kind p).required)).flatMap fun p =>
-    (fs.filter (fun f => f.1 = p)).flatMap fun f => f.2 (r.kind p == .table) (r.kind p == .target)
+  (r.print.filter (fun p => (r.kind p).relevant)).flatMap fun p =>
+    (fs.filter (fun f => f.1 = p)).flatMap fun f => f.2 (r.kind p).required (r.kind p == .table) (r.kind p == .target)
 
 mutual
-/-- textual preorder of the nodes the property requires to be visited, with the expected flags -/
-def expected (σ : Schema) : Node → Exp
-  | .mk c _ t ks => fun it ig => (some t, it, ig) :: combineP (σ.row c) (expectedL σ ks)
+def expectedX (σ : Schema) : Node → Exp
+  | .mk c _ t ks => fun self it ig =>
+    (if self then [(some t, it, ig)] else []) ++ combineP (σ.row c) (expectedL σ ks)
 def expectedL (σ : Schema) : List Node → List (Nat × Exp)
   | [] => []
-  | k :: ks => (k.slot, expected σ k) :: expectedL σ ks
+  | k :: ks => (k.slot, expectedX σ k) :: expectedL σ ks
 end
+
+/-- textual preorder of the nodes the property requires to be visited, with the expected flags -/
+def expected (σ : Schema) (t : Node) (it ig : Bool) : List (Option Nat × Bool × Bool) := expectedX σ t true it ig
 
 /-! ## Decidable conditions on rows (Φ13) -/
 
+def slotsOf : List Node → List Nat
+  | [] => []
+  | k :: ks => k.slot :: slotsOf ks
+
 /-- the branch of a class, restricted to the slots that are occupied in a node, does what the
-property says: the occupied visited slots are exactly the occupied printed slots of a required kind,
-in the same order, with flags equal to the slot kinds (in particular no slot of another kind is
-traversed); every entry for an occupied slot is a plain traversal of the child whose result is assigned back; `None` is never passed to the callback; every occupied slot of a
-required kind is printed (so that it has a textual position) -/
+property says: the occupied traversed slots are exactly the occupied printed slots of a required or
+container kind, in the same order; a required slot is traversed plainly with flags equal to its kind, a
+container slot is looked through (`via`); a returned node is assigned back; `None` is never passed to the
+visitor; every occupied relevant slot is printed (so that it has a textual position), once -/
 def nodeOK (r : ClassRow) (present : List Nat) : Bool :=
   r.walk.all (fun e => (!e.noneVisit || present.contains e.slot)
-                        && (!present.contains e.slot || (e.via.isNone && e.repl == .same)))
-  && ((r.walk.filter (fun e => present.contains e.slot)).map (fun e => (e.slot, e.isTable, e.isTarget))
-      == (r.print.filter (fun p => (r.kind p).required && present.contains p)).map
-            (fun p => (p, r.kind p == .table, r.kind p == .target)))
-  && present.all (fun p => !(r.kind p).required || r.print.contains p)
-  && (r.print.filter (fun p => (r.kind p).required && present.contains p)).Nodup
+                        && (!present.contains e.slot || e.repl == .same))
+  && ((r.walk.filter (fun e => present.contains e.slot)).map (fun e => (e.slot, e.via.isNone, e.isTable, e.isTarget))
+      == (r.print.filter (fun p => (r.kind p).relevant && present.contains p)).map
+            (fun p => (p, (r.kind p).required, r.kind p == .table, r.kind p == .target)))
+  && present.all (fun p => !(r.kind p).relevant || r.print.contains p)
+  && (r.print.filter (fun p => (r.kind p).relevant && present.contains p)).Nodup
+
+/-- the occupant of a container slot (class row `rk`, occupied slots `present`) as seen by the entry `e`
+that looks through it: its only occupied relevant slot is the one traversed, it is required, holds exactly
+one node, and the flags passed are those of its kind -/
+def contCond (rk : ClassRow) (e : Entry) (present : List Nat) : Bool :=
+  match e.via with
+  | none => true
+  | some q =>
+    (rk.print.filter (fun p => (rk.kind p).relevant && present.contains p) == [q])
+    && (rk.kind q).required && ((rk.kind q == .table) == e.isTable) && ((rk.kind q == .target) == e.isTarget)
+    && (present.filter (· == q) == [q])
+    && present.all (fun p => !(rk.kind p).relevant || rk.print.contains p)
 
 /-- the row is right whatever slots are occupied -/
 def rowOK (r : ClassRow) : Bool :=
-  r.walk.all (fun e => e.via.isNone && !e.noneVisit && e.repl == .same)
-  && (r.walk.map (fun e => (e.slot, e.isTable, e.isTarget))
-      == (r.print.filter (fun p => (r.kind p).required)).map (fun p => (p, r.kind p == .table, r.kind p == .target)))
-  && (List.range r.kinds.length).all (fun p => !(r.kind p).required || r.print.contains p)
-  && (r.print.filter (fun p => (r.kind p).required)).Nodup
+  r.walk.all (fun e => !e.noneVisit && e.repl == .same)
+  && (r.walk.map (fun e => (e.slot, e.via.isNone, e.isTable, e.isTarget))
+      == (r.print.filter (fun p => (r.kind p).relevant)).map
+            (fun p => (p, (r.kind p).required, r.kind p == .table, r.kind p == .target)))
+  && (List.range r.kinds.length).all (fun p => !(r.kind p).relevant || r.print.contains p)
+  && (r.print.filter (fun p => (r.kind p).relevant)).Nodup
 
 mutual
 /-- every node of the tree is in a class / slot configuration whose branch is right -/
 def okTree (σ : Schema) : Node → Bool
-  | .mk c _ _ ks => nodeOK (σ.row c) (slotsOf ks) && okTreeL σ ks
-def okTreeL (σ : Schema) : List Node → Bool
+  | .mk c _ _ ks => nodeOK (σ.row c) (slotsOf ks) && okKids σ (σ.row c) ks
+/-- children in required slots are `okTree`; an occupant of a container slot satisfies `contCond` for the
+entries that look through it and its own children are `okKids`; other children (names) are not traversed -/
+def okKids (σ : Schema) (row : ClassRow) : List Node → Bool
   | [] => true
-  | k :: ks => okTree σ k && okTreeL σ ks
-def slotsOf : List Node → List Nat
-  | [] => []
-  | k :: ks => k.slot :: slotsOf ks
+  | .mk c s t gs :: ks =>
+    (if (row.kind s).required then okTree σ (.mk c s t gs)
+     else if row.kind s == .container then
+       row.walk.all (fun e => e.slot != s || contCond (σ.row c) e (slotsOf gs)) && okKids σ (σ.row c) gs
+     else true)
+    && okKids σ row ks
 end
 
 /-! ## Deviations: by what the probed schema differs from an OK one -/
@@ -278,7 +306,7 @@ def rowDevs (r : ClassRow) : List (Nat × Dev) :=
         (if r.print.contains e.slot &&
             (r.walk.drop (i + 1)).any (fun b => r.print.contains b.slot && idxOf r.print b.slot < idxOf r.print e.slot)
           then [(e.slot, Dev.order)] else [])
-        ++ (if e.via.isSome then [(e.slot, Dev.via)] else [])
+        ++ (if e.via.isSome != (k == .container) then [(e.slot, Dev.via)] else [])
         ++ (if e.repl != .same then [(e.slot, Dev.replace)] else [])
         ++ (if e.noneVisit then [(e.slot, Dev.none)] else [])
         ++ (if k != .container && e.via.isNone && e.isTable != (k == .table) then [(e.slot, Dev.flagTable)] else [])
